@@ -49,7 +49,47 @@ func c04Prefixes(r *Rng, n int) []c04Prefix {
 		{"call-with-string-arg", fmt.Sprintf("print(\"t\\tx\", %d);", n)},
 		{"several", fmt.Sprintf("s%d = \"a\\tb\" --[[ c ]] t%d = [[x]];", n, n)},
 	}
+	// composed prefixes: random combinations of the ingredients above inside ONE string / comment, so that faults that
+	// need two ingredients together (e.g. a multi-byte character before an in-string line break) are reached
+	all = append(all, c04Composed(r, n, "short"), c04Composed(r, n, "short"), c04Composed(r, n, "long"), c04Composed(r, n, "comment"))
 	return all
+}
+
+func c04Composed(r *Rng, n int, kind string) c04Prefix {
+	type seg struct{ feat, text string }
+	plain := []seg{{"ascii", "ab c"}, {"2byte", "é я"}, {"3byte", "中 €"}, {"astral", "😀𝔘"}, {"tab", "\t"}}
+	shortOnly := []seg{{"esc-n", "\\n"}, {"esc-quote", "\\\""}, {"esc-backslash", "\\\\"}, {"esc-decimal", "\\065"}, {"esc-hex", "\\x41"},
+		{"esc-unicode", "\\u{1F600}"}, {"esc-z-inline", "\\z  "}, {"line-continuation", "\\\n"}, {"z-across-lines", "\\z\n  "}, {"z-across-two-lines", "\\z \n\n "}}
+	longOnly := []seg{{"newline", "\n"}, {"bracket-noise", "]"}, {"quote-noise", "\""}}
+	pool := plain
+	if kind == "short" {
+		pool = append(append([]seg{}, plain...), shortOnly...)
+	} else {
+		pool = append(append([]seg{}, plain...), longOnly...)
+	}
+	k := r.Range(2, 5)
+	feats := map[string]bool{}
+	var body strings.Builder
+	for i := 0; i < k; i++ {
+		sg := pool[r.Intn(len(pool))]
+		feats[sg.feat] = true
+		body.WriteString(sg.text)
+	}
+	var fl []string
+	for f := range feats {
+		fl = append(fl, f)
+	}
+	sort.Strings(fl)
+	cls := kind + "[" + strings.Join(fl, "+") + "]"
+	lvl := r.Range(1, 3)
+	eq := strings.Repeat("=", lvl)
+	switch kind {
+	case "short":
+		return c04Prefix{cls, fmt.Sprintf("s%d = \"%s\";", n, body.String())}
+	case "long":
+		return c04Prefix{cls, fmt.Sprintf("s%d = [%s[%s]%s];", n, eq, body.String(), eq)}
+	}
+	return c04Prefix{cls, fmt.Sprintf("--[%s[%s]%s]", eq, body.String(), eq)}
 }
 
 type c04File struct {
@@ -87,12 +127,12 @@ func c04GenFile(r *Rng, idx int, le string) c04File {
 	emit(nx(), fmt.Sprintf("function %sFunc(%sp1, %sp2) return %sp1 + %sp2 + %salpha end", pre, pre, pre, pre, pre, pre))
 	emit(nx(), fmt.Sprintf("local function %shelper(%sq) return %sq * %sbeta end", pre, pre, pre, pre))
 	emit(nx(), fmt.Sprintf("print(%salpha, %sbeta, %sGlob.field, %sFunc(1, 2), %shelper(3))", pre, pre, pre, pre, pre))
-	emit(nx(), fmt.Sprintf("local %sunused = %salpha", pre, pre))                      // type 4
-	emit(nx(), fmt.Sprintf("print(%sundefinedName)", pre))                             // type 2
-	emit(nx(), fmt.Sprintf("local %sw = 1", pre))                                      // type 4 + 17 below
-	emit(nx(), fmt.Sprintf("%sw = 2", pre))                                            // type 17
+	emit(nx(), fmt.Sprintf("local %sunused = %salpha", pre, pre))                          // type 4
+	emit(nx(), fmt.Sprintf("print(%sundefinedName)", pre))                                 // type 2
+	emit(nx(), fmt.Sprintf("local %sw = 1", pre))                                          // type 4 + 17 below
+	emit(nx(), fmt.Sprintf("%sw = 2", pre))                                                // type 17
 	emit(nx(), fmt.Sprintf("function %sDup(%sd, %sd) return %sd end", pre, pre, pre, pre)) // type 13
-	emit(nx(), fmt.Sprintf("print(%sLate)", pre))                                      // type 3
+	emit(nx(), fmt.Sprintf("print(%sLate)", pre))                                          // type 3
 	emit(nx(), fmt.Sprintf("%sLate = %sGlob", pre, pre))
 	emit(nx(), fmt.Sprintf("for %si = 1, %salpha do print(%si, %sbeta) end", pre, pre, pre, pre))
 	emit(nx(), fmt.Sprintf("%sTab = {} function %sTab.method(%sself2, %sarg) return %sarg end", pre, pre, pre, pre, pre))
